@@ -99,3 +99,30 @@ func jsonMarshal(v any) string {
 }
 
 func jsonUnmarshal(s string, v any) error { return json.Unmarshal([]byte(s), v) }
+
+// renderOnly makes the random grammar generators stop after rendering the .tm text (no in-process compilation):
+// used to feed the texts to the crash check, which compiles them in sub-processes.
+var renderOnly = os.Getenv("VERIF_RENDER_ONLY") != ""
+
+func init() { register("tm-texts", tmTexts) }
+
+// tm-texts <ndjson with a tmtext field per line> <outdir> <prefix>: one .tm file per record
+func tmTexts(args []string) error {
+	recs, err := readNDJSON[map[string]any](args[0])
+	if err != nil {
+		return err
+	}
+	if err := os.MkdirAll(args[1], 0o755); err != nil {
+		return err
+	}
+	for i, r := range recs {
+		t, _ := r["tmtext"].(string)
+		if t == "" {
+			continue
+		}
+		if err := os.WriteFile(fmt.Sprintf("%s/%s%04d.tm", args[1], args[2], i), []byte(t), 0o644); err != nil {
+			return err
+		}
+	}
+	return nil
+}
